@@ -101,6 +101,8 @@
     (match act
       [:start w op] (d/start world w opid (make-thunk op chans))
       [:cancel w tag] (ev/cancel ((world :workers) w) tag)
+      # the reader is cancelled and the stream it was blocked on is closed in the same turn
+      [:cancelx w tag pi] (do (ev/cancel ((world :workers) w) tag) (ev/close ((pipes pi) 0)))
       [:tick s] (ev/sleep s)
       [:pexit k] (do (ev/write ((procs k) :in) "\n") (wait-child-gone (procs k)))
       (errorf "bad action %p" act))
